@@ -60,6 +60,7 @@ class Vc:
         self.defines = defines or {}
         self.bases = []
         self.module = None
+        self.strip_paths = set()
         self._parse(path)
 
     def _expand(self, path, templates):
@@ -172,6 +173,8 @@ class Vc:
                 self.bases = rest.split()
             elif word == 'module':
                 self.module = rest
+            elif word == 'strip-path':
+                self.strip_paths.add(rest)
             elif word == 'source':
                 self.sources.append(rest)
             elif word in ('header', 'prelude', 'postlude'):
@@ -463,6 +466,12 @@ class Extractor:
         i = 0
         while i < len(toks):
             t = toks[i]
+            if t.kind == 'ident' and t.text in self.vc.strip_paths and i + 1 < len(toks) and toks[i + 1].text == '::' and (i == 0 or toks[i - 1].text != '::'):
+                # R7: sibling module prefix (`common::f`) -> `f` (single-file crate)
+                edits.append((t.start, toks[i + 2].start if i + 2 < len(toks) else toks[i + 1].end, '', None))
+                self.rule('R7', sf.rel, sf.line_of(t.start), 'path %s::… -> …' % t.text)
+                i += 2
+                continue
             if t.kind == 'ident' and t.text in ('crate', 'super') and i + 1 < len(toks) and toks[i + 1].text == '::':
                 j = i
                 # strip leading lowercase path segments
